@@ -1,6 +1,7 @@
 mod gen;
 mod ops;
 mod ops_access;
+mod ops_edit;
 mod props;
 mod rng;
 mod wire;
